@@ -48,14 +48,24 @@ func newAggregatedLabels(set LabelSet, by, without map[string]struct{}) *aggrega
 
 // By returns new set of labels containing only given list of labels.
 func (a *aggregatedLabels) By(labels ...logql.Label) logqlmetric.AggregatedLabels {
-	if len(labels) == 0 {
-		return a
+	// A nil by-set means "no restriction", a non-nil one (even if empty, as
+	// for `by ()`) keeps only the listed labels.
+	by := make(map[string]struct{}, len(labels))
+	for _, label := range labels {
+		name := string(label)
+		if a.by != nil {
+			// Label was removed by a previous aggregation and cannot reappear.
+			if _, ok := a.by[name]; !ok {
+				continue
+			}
+		}
+		by[name] = struct{}{}
 	}
 
 	sub := &aggregatedLabels{
 		entries: a.entries,
 		without: a.without,
-		by:      buildSet(maps.Clone(a.by), labels...),
+		by:      by,
 	}
 	return sub
 }
@@ -164,7 +174,7 @@ func (a *aggregatedLabels) forEach(cb func(k, v string)) {
 		if _, ok := a.without[e.name]; ok {
 			continue
 		}
-		if len(a.by) > 0 {
+		if a.by != nil {
 			if _, ok := a.by[e.name]; !ok {
 				continue
 			}
